@@ -26,7 +26,7 @@ try:
         m = re.search(r'copy to:\s*(\S+)', first)
         pkgdir = m.group(1).rstrip('/') if m else sys.exit('demo_test.go lacks "copy to:" line')
         if pkgdir.startswith('/'):  # absolute path given by the agent: make relative to its worktree
-            pkgdir = re.sub(r'^/tmp/w[tsuvw]_[A-Za-z0-9]+/?', '', pkgdir)
+            pkgdir = re.sub(r'^/tmp/w[tsuvwx]_[A-Za-z0-9]+/?', '', pkgdir)
         dst = os.path.join(wt, pkgdir, 'zz_seed_demo_test.go')
         shutil.copy(demo_test, dst)
         names = re.findall(r'^func (Test\w+)\(', open(demo_test).read(), re.M)
